@@ -104,6 +104,7 @@ def step (w : World) : Op → World × Option Err
     | none => (w, some .other)
     | some t => let r := t.sort n key rev deep; (w.setTree i r.1, r.2)
   | .setData i n a did wc rename =>
+    if n = 0 then (w, some .other) else          -- the system root is not a node of the API
     match w.trees[i]? with
     | none => (w, some .other)
     | some t => match findT n t.root with
